@@ -1,4 +1,5 @@
 import time
+import threading
 import os
 import sys
 import hashlib
@@ -215,8 +216,21 @@ def try_to_save_module(hashed_grammar, file_io, module, lines, pickling=True, ca
 
 
 def _save_to_file_system(hashed_grammar, path, item, cache_path=None):
-    with open(_get_hashed_path(hashed_grammar, path, cache_path=cache_path), 'wb') as f:
-        pickle.dump(item, f, pickle.HIGHEST_PROTOCOL)
+    cache_file = _get_hashed_path(hashed_grammar, path, cache_path=cache_path)
+    # Write to a temporary file and move it afterwards. Otherwise two processes
+    # that save the same module at the same time could produce a file that is
+    # a mixture of both pickles and a reader could see a half-written file.
+    tmp_file = '%s.%s.%s.tmp' % (cache_file, os.getpid(), threading.get_ident())
+    try:
+        with open(tmp_file, 'wb') as f:
+            pickle.dump(item, f, pickle.HIGHEST_PROTOCOL)
+        os.replace(tmp_file, cache_file)
+    except BaseException:
+        try:
+            os.remove(tmp_file)
+        except OSError:
+            pass
+        raise
 
 
 def clear_cache(cache_path=None):
